@@ -55,11 +55,11 @@ def root_ref(level, muhat, sigma, ts, clipped, which):
 
 def plan(tier, seed):
     cases = []
-    backends = ["numpy"] if tier == "quick" else ["numpy", "pytorch", "jax"]
+    backends = ["numpy", "pytorch"] if tier == "quick" else ["numpy", "pytorch", "jax", "tensorflow"]
     for be in backends:
         for r in (-1.0, 0.0, 0.5, 2.0):
-            for sigma in (0.003, 0.03, 0.3, 1.0, 2.5):
-                for level in LEVELS:
+            for sigma in ((0.003, 0.03, 0.3, 1.0, 2.5) if be == "numpy" else (0.03, 1.0)):
+                for level in (LEVELS if be == "numpy" else [0.05, 0.2]):
                     cases.append({"kind": "scripted", "backend": be, "ratio": r, "sigma": sigma, "level": level})
     mnames = ["poi1", "poi2"] + (["poi3c", "onoff", "srcr"] if tier == "thorough" else ["onoff"])
     for mn in mnames:
